@@ -259,6 +259,16 @@ func c0708Worker(w *W) {
 				if pv, _ := catch(func() { ms = builtinFaithful(w.Spec.Dir, w.Spec.Name, W, mk) }); pv != nil {
 					ms = nil // a panicking layout is the business of the per-case checks
 				}
+				mkInfo := func() []*log.Event { // through a logger: a level every range contains
+					evs := mk()
+					for _, e := range evs {
+						e.Level = log.InfoLevel
+					}
+					return evs
+				}
+				if pv, _ := catch(func() { ms = append(ms, builtinFanout(w.Spec.Dir, w.Spec.Name, []int{12, 48, 200}, mkInfo)...) }); pv != nil {
+					ms = nil
+				}
 				for _, m := range ms {
 					w.Violate(prop+":builtin-sink-alters-bytes", m.String(), gc)
 				}
